@@ -136,11 +136,40 @@ def judge(results, part, family, prefix_len, stale_of, opkey, loose_ids=False, d
                     divergences.append({"input": " ; ".join(script[max(1, k - 6):k + 1])[-1200:], "script": script[1],
                                         "impl": h[:400], "model": m[:400]})
                     done_div = True
-    violations = [v for _, v in sorted(ubs.items())]
+    violations = [shrink_ub(v, results, prefix_len) for _, v in sorted(ubs.items())][:8]
     # violations that carry the signature shape of a recorded finding are classified by check.py (KNOWN-FINDING)
     unknown = [v for v in violations if "effect" not in v["signature"]]
     return {"divergences": divergences, "violations": violations, "hist": hist, "evaluations": evals,
             "distinct": len(seen), "ok": not divergences and not unknown}
+
+
+def shrink_ub(v, results, prefix_len):
+    """A `ub` replay as short as it gets: prefix + the failing call (kept only if it still fails), else
+    prefix + the calls on the same handle + the failing call, else the recorded script."""
+    if not v.get("tag", "").startswith("ub_"):
+        return v
+    body = [l for l in v["body"] if not l.startswith(("impl(", "stderr: "))]
+    tail = [l for l in v["body"] if l.startswith(("impl(", "stderr: "))]
+    if len(body) < 3:
+        return v
+    n = prefix_len(body)
+    pre, calls, last = body[:n], body[n:-1], body[-1]
+    if len(body) <= n + 1:
+        return v
+    toks = last.split()
+    handle = toks[1] if len(toks) > 1 else None
+    cands = [pre + [last], pre + [l for l in calls if handle and handle in l.split()[1:3]] + [last]]
+    for cand in cands:
+        try:
+            out, _ = runner.run_harness_script(cand, watchdog=15, stateless=False)
+        except Exception:
+            continue
+        if out and (out[-1].startswith("ub") or out[-1].startswith("missing-output")) and \
+                all(not o.startswith("ub") for o in out[:-1]):
+            w = dict(v)
+            w["body"] = cand + ["impl(last): " + out[-1]] + [t for t in tail if t.startswith("stderr: ")]
+            return w
+    return v
 
 
 CREATORS = ("mkroot", "mksub", "mkroot_after", "mksub_after", "mktrack", "v1.mktrack", "v2.mktrack")
